@@ -8,6 +8,12 @@ SHARED = [
      "trusted": "Props/Boundary.lean reads librdengine.py's two initialiser calls and two read-back functions through the "
                 "Marshal translator group (argument wrappers, `.convert(units_system).value`, `build_*(…, units_system)`, "
                 "`UnitArray(…, Units(sys=units_system, …))`); the meaning given to those four shapes (`marshalReal`) is hand-written"},
+    # numeric types of the C++ engine: no molecule number / time / ratio in an int, no single precision, no 1/3, no tolerances
+    {"target": "Strengths.Props.CppNumeric", "file": "Strengths/Props/CppNumeric.lean", "groups": ["CppNumeric"],
+     "props": ["C01", "C02", "C03", "C04", "C07", "C09", "C11", "C14", "C15"],
+     "trusted": "Props/CppNumeric.lean is an inventory (regex over the comment-stripped C++ sources) of integer initialisations, "
+                "casts, `float` tokens, integer-literal divisions and tolerance vocabulary; it shows the engine never narrows a "
+                "real-valued quantity, not that `double` arithmetic is exact"},
 ]
 
 
